@@ -83,17 +83,18 @@ type routerCase struct {
 	Cors     bool     `json:"cors"`
 	Origin   string   `json:"cors_origin,omitempty"`
 	Mode     string   `json:"mode"`
+	Prefix   string   `json:"api_prefix,omitempty"`
 	Wire     bool     `json:"wire"`
 	Reqs     []Req    `json:"reqs"`
 }
 
 func (c routerCase) settings() Settings {
-	return Settings{Login: string(c.Login), Password: string(c.Password), Cors: c.Cors, Origin: c.Origin, Mode: c.Mode}
+	return Settings{Login: string(c.Login), Password: string(c.Password), Cors: c.Cors, Origin: c.Origin, Mode: c.Mode, Prefix: c.Prefix}
 }
 
 func genRouter(rt *rapid.T) routerCase {
 	s := genSettings(rt)
-	c := routerCase{Login: evid.Str(s.Login), Password: evid.Str(s.Password), Cors: s.Cors, Origin: s.Origin, Mode: s.Mode}
+	c := routerCase{Login: evid.Str(s.Login), Password: evid.Str(s.Password), Cors: s.Cors, Origin: s.Origin, Mode: s.Mode, Prefix: s.Prefix}
 	c.Wire = rapid.IntRange(0, 3).Draw(rt, "wire") == 0
 	n := rapid.IntRange(1, 40).Draw(rt, "nreq")
 	for i := 0; i < n; i++ {
